@@ -7,7 +7,8 @@
 (* numbers (sel.ndjson: [u, ra, rb] lines drawn from the seed):            *)
 (*   W  walk family   index -> (forest, cwd, abs, trail, components);      *)
 (*                    ra/rb -> the remaining coordinates                   *)
-(*      All3 = TRUE adds EVERY index with at most 3 components             *)
+(*      All3 = TRUE adds EVERY string with at most 3 components (relative: *)
+(*      from every cwd of every forest; absolute: once per forest)         *)
 (*   K  class family  every open-family call x access mode x SUBSET KFlags *)
 (*   A  argument family  every call x every descriptor encoding x 4 shapes *)
 (***************************************************************************)
@@ -84,7 +85,15 @@ Ra(i) == (i * 7919 + (Seed % 1000) * 104729 + 12345) % 999983
 Rb(i) == (i * 48611 + (Seed % 1000) * 7 + 1) % 999979
 
 WSel  == [ j \in DOMAIN Sel |-> WCase(Sel[j][1] % N4, Sel[j][2], Sel[j][3]) ]
-WAll3 == IF All3 THEN [ i \in 1..N3 |-> WCase(i - 1, Ra(i - 1), Rb(i - 1)) ] ELSE <<>>
+\* every string of at most 3 components: relative ones from every cwd, absolute ones once per forest
+\* (an absolute name does not depend on the cwd), in the index layout of WCase
+Idx(x, abs, tr, c, f) == (((x * 2 + abs) * 2 + tr) * NC + c) * NF + f
+NRel3 == NP3 * 2 * NC * NF
+NAbs3 == NP3 * 2 * NF
+All3Index(j) ==
+  IF j < NRel3 THEN Idx(j \div (2 * NC * NF), 0, (j \div (NC * NF)) % 2, (j \div NF) % NC, j % NF)
+  ELSE LET k == j - NRel3 IN Idx(k \div (2 * NF), 1, (k \div NF) % 2, k % NC, k % NF)
+WAll3 == IF All3 THEN [ j \in 1..(NRel3 + NAbs3) |-> WCase(All3Index(j - 1), Ra(j - 1), Rb(j - 1)) ] ELSE <<>>
 
 \* ---- K: class of every open flag word
 KCases ==
